@@ -142,7 +142,7 @@ Section Examples.
   Example C16_ex_float_2_53_plus_1 : serialize pi pf fs md SFloat (PInt (2 ^ 53 + 1)%Z) = CErr.
   Proof. vm_compute. reflexivity. Qed.
   Example C16_ex_float_2_53_plus_2 :
-    serialize pi pf fs md SFloat (PInt (2 ^ 53 + 2)%Z) = COk (PFloat (FFin false (2 ^ 53 + 2) 0%Z)).
+    serialize pi pf fs md SFloat (PInt (2 ^ 53 + 2)%Z) = COk (PFloat (FFin false (2 ^ 52 + 1) 1%Z)).
   Proof. vm_compute. reflexivity. Qed.
   Example C16_ex_float_nan : serialize pi pf fs md SFloat (PFloat FNan) = CErr.
   Proof. reflexivity. Qed.
